@@ -43,17 +43,32 @@ def mul_backward(grad:np.ndarray, a:np.ndarray, b:np.ndarray):
 def matmul_forward(a:np.ndarray, b:np.ndarray):
     return a @ b
 
+def matmul_shape(a_shape:tuple, b_shape:tuple) -> tuple:
+    """ Shape of a @ b. np.matmul takes a 1-D first operand as a row and a 1-D second operand
+    as a column, and removes that axis from the result """
+    a2_shape = (1,) + tuple(a_shape) if len(a_shape) == 1 else tuple(a_shape)
+    b2_shape = tuple(b_shape) + (1,) if len(b_shape) == 1 else tuple(b_shape)
+    shape = np.broadcast_shapes(a2_shape[:-2], b2_shape[:-2]) + (a2_shape[-2], b2_shape[-1])
+    if len(b_shape) == 1: shape = shape[:-1]
+    if len(a_shape) == 1: shape = shape[:-1] if len(b_shape) == 1 else shape[:-2] + shape[-1:]
+    return shape
+
 def matmul_backward(grad:np.ndarray, a:np.ndarray, b:np.ndarray):
-    grad_a = grad @ np.swapaxes(b, -2, -1)
-    grad_b = np.swapaxes(a, -2, -1) @ grad
-    return unbroadcast(grad_a, a.shape), unbroadcast(grad_b, b.shape)
+    # 1-D operands: same promotion as np.matmul (row / column), the axis removed from the result is put back in grad
+    a2 = a[np.newaxis, :] if a.ndim == 1 else a
+    b2 = b[:, np.newaxis] if b.ndim == 1 else b
+    if b.ndim == 1: grad = grad[..., np.newaxis]
+    if a.ndim == 1: grad = grad[..., np.newaxis, :]
+    grad_a = grad @ np.swapaxes(b2, -2, -1)
+    grad_b = np.swapaxes(a2, -2, -1) @ grad
+    return unbroadcast(grad_a, a2.shape).reshape(a.shape), unbroadcast(grad_b, b2.shape).reshape(b.shape)
 
 
 def addmm_forward(a:np.ndarray, b:np.ndarray, c:np.ndarray):
     return a + (b @ c)
 
 def addmm_backward(grad:np.ndarray, a:np.ndarray, b:np.ndarray, c:np.ndarray):
-    grad_a, grad_mm = add_backward(grad, a.shape, np.broadcast_shapes(b.shape[:-2], c.shape[:-2]) + (b.shape[-2], c.shape[-1]))
+    grad_a, grad_mm = add_backward(grad, a.shape, matmul_shape(b.shape, c.shape))
     grad_b, grad_c = matmul_backward(grad_mm, b, c)
     return grad_a, grad_b, grad_c
 
